@@ -159,6 +159,31 @@ func init() {
 // (evaluated on the old contents).  The comparator is assumed to be a strict weak order.
 func modelSortLess(viaInterface bool, stable bool) func(x *Exec, st *State, fr *Frame, call *ssa.Call, args []Val) ([]*State, bool) {
 	return func(x *Exec, st *State, fr *Frame, call *ssa.Call, args []Val) ([]*State, bool) {
+		if viaInterface {
+			// sort.Sort(sort.Reverse(sort.IntSlice(s))) and the Float64Slice / StringSlice forms: a descending sort of s
+			if rc, ok := call.Call.Args[0].(*ssa.Call); ok && rc.Call.StaticCallee() != nil && rc.Call.StaticCallee().String() == "sort.Reverse" {
+				if mi, ok := rc.Call.Args[0].(*ssa.MakeInterface); ok {
+					if ct, ok := mi.X.(*ssa.ChangeType); ok {
+						var es Sort
+						isStr, known := false, true
+						switch ct.Type().String() {
+						case "sort.IntSlice":
+							es = SInt
+						case "sort.Float64Slice":
+							es = SReal
+						case "sort.StringSlice":
+							es, isStr = SStr, true
+						default:
+							known = false
+						}
+						if known {
+							sv := x.val(st, fr, ct.X)
+							return modelSortBasicDir(es, isStr, true)(x, st, fr, call, []Val{sv})
+						}
+					}
+				}
+			}
+		}
 		var s *Term          // the slice being sorted
 		var elem types.Type  // its element type
 		var lessFn *ssa.Function
@@ -268,6 +293,10 @@ func (x *Exec) externalModel(fn *ssa.Function) *extModel {
 // modelSortBasic: after the call the slice holds a sorted permutation of its old contents.
 // The permutation is witnessed by a fresh uninterpreted bijection on [0,len).
 func modelSortBasic(es Sort, isStr bool) func(x *Exec, st *State, fr *Frame, call *ssa.Call, args []Val) ([]*State, bool) {
+	return modelSortBasicDir(es, isStr, false)
+}
+
+func modelSortBasicDir(es Sort, isStr bool, desc bool) func(x *Exec, st *State, fr *Frame, call *ssa.Call, args []Val) ([]*State, bool) {
 	return func(x *Exec, st *State, fr *Frame, call *ssa.Call, args []Val) ([]*State, bool) {
 		s := args[0].T
 		comp, cs := hsComp(es), hsSort(es)
@@ -294,8 +323,12 @@ func modelSortBasic(es Sort, isStr bool) func(x *Exec, st *State, fr *Frame, cal
 		st.assume(Forall([]*Term{k}, Implies(Or(Cmp("<", k, SlOff(s)), Cmp(">=", k, Arith("+", SlOff(s), n))),
 			Eq(Select(Select(nh, SlArr(s)), k), Select(Select(h, SlArr(s)), k))), []*Term{Select(Select(nh, SlArr(s)), k)}))
 		var le *Term
-		if isStr {
+		if isStr && desc {
+			le = Not(App(x.strLt(), SBool, at(nh, i), at(nh, j)))
+		} else if isStr {
 			le = Not(App(x.strLt(), SBool, at(nh, j), at(nh, i)))
+		} else if desc {
+			le = Cmp(">=", at(nh, i), at(nh, j))
 		} else {
 			le = Cmp("<=", at(nh, i), at(nh, j))
 		}
